@@ -182,3 +182,18 @@ pub fn boundary_u64(rng: &mut StdRng, max: u64) -> u64 {
         }
     }
 }
+
+
+/// canonical text of a JSON value: object keys sorted (serde_json keeps insertion order in this build)
+pub fn canonical(v: &Value) -> String {
+    match v {
+        Value::Object(m) => {
+            let mut keys: Vec<&String> = m.keys().collect();
+            keys.sort();
+            let parts: Vec<String> = keys.iter().map(|k| format!("{}:{}", serde_json::to_string(k).unwrap(), canonical(&m[*k]))).collect();
+            format!("{{{}}}", parts.join(","))
+        }
+        Value::Array(a) => format!("[{}]", a.iter().map(canonical).collect::<Vec<_>>().join(",")),
+        other => other.to_string(),
+    }
+}
